@@ -38,14 +38,14 @@ def case_classes(repo):
     up, lo, cwl = props["Uppercase"], props["Lowercase"], props["Changes_When_Lowercased"]
     out = {}
     for cp in range(ucd.MAXCP + 1):
-        k = (up[cp], lo[cp], cwl[cp])
+        k = (up[cp], lo[cp], cwl[cp], 1 if cp < 0x80 else 0)
         if k not in out:
             out[k] = [cp, 0]
         out[k][1] += 1
     named = {}
-    for (u, l, c), (first, n) in sorted(out.items()):
-        name = "%s%s%s" % ("U" if u else "u", "L" if l else "l", "C" if c else "c")
-        named[name] = (bool(u), bool(l), bool(c), first, n)
+    for (u, l, c, a), (first, n) in sorted(out.items()):
+        name = "%s%s%s%s" % ("U" if u else "u", "L" if l else "l", "C" if c else "c", "A" if a else "")
+        named[name] = (bool(u), bool(l), bool(c), first, n, bool(a))
     return named, ver
 
 
@@ -93,9 +93,16 @@ def run(tier):
             return ip.some(Sym(("lower-first", c.name[1], c.name[2]), "char"))
         return None
 
+    CH = "core::char::methods::<impl char>::"
     oracles = {
         IS_UPPER: lambda cls, c: ip.boolean(classes[cls][0]),
         IS_LOWER: lambda cls, c: ip.boolean(classes[cls][1]),
+        # ASCII helpers: for ASCII characters the ASCII case predicates/mapping coincide with the Unicode ones
+        CH + "is_ascii": lambda cls, c: ip.boolean(classes[cls][5]),
+        CH + "is_ascii_uppercase": lambda cls, c: ip.boolean(classes[cls][5] and classes[cls][0]),
+        CH + "is_ascii_lowercase": lambda cls, c: ip.boolean(classes[cls][5] and classes[cls][1]),
+        CH + "is_ascii_alphabetic": lambda cls, c: ip.boolean(classes[cls][5] and (classes[cls][0] or classes[cls][1])),
+        CH + "to_ascii_lowercase": lambda cls, c: Sym(("lower-all", c.name[1], cls), "char") if classes[cls][5] else c,
     }
     extra = {TO_LOWER: to_lower, FOR_EACH: for_each, ONCE: once, ITER_NE: iter_cmp(True), ITER_EQ: iter_cmp(False), "<core::char::ToLowercase as core::iter::traits::iterator::Iterator>::next": next_of_lower}
     w = fcd.FcdWorld(prog, alpha, oracles, extra_oracles=extra)
@@ -109,7 +116,7 @@ def run(tier):
             v = classes[k]
             rep.ob(
                 "discipline",
-                "trigger covers class %s (Uppercase=%s Lowercase=%s CWL=%s)" % (k, v[0], v[1], v[2]),
+                "trigger covers class %s (Uppercase=%s Lowercase=%s CWL=%s ASCII=%s)" % (k, v[0], v[1], v[2], v[5]),
                 k in info["trig"],
                 "characters of this class (%d, first U+%04X) have a lowercase mapping but do not trigger the mapping: a string whose first changing character is one of them is returned unchanged, so the result for such a character depends on what precedes it" % (v[4], v[3]),
                 b.where(),
@@ -126,6 +133,7 @@ def run(tier):
                 cwl = classes[a][2]
                 full = [("push", "lower-all", 0, a)]
                 ident = [("push", "char", 0, a)]
+                # (for a character that does not change, its full lowercase mapping *is* the character)
                 okk = (got == full) or (not cwl and got == ident)
                 rep.ob("discipline", "class %s ↦ %s" % (a, "full lowercase mapping" if cwl else "itself"), okk and per[a][1] == q0, "loop emits %s" % got, b.where(), key="discipline|map|%s" % a, sample=True)
             rep.ob("discipline", "end of input", end_res == ("Ok", "buffer") and not end_ev, "at end: %s %s" % (end_ev, end_res), b.where())
